@@ -81,6 +81,10 @@ def build(s):
         return CIMDateTime(s[1])
     if t == 'a':
         return [build(x) for x in s[1]]
+    if t == 't':
+        return tuple(build(x) for x in s[1])
+    if t == 'j':
+        return s[1]
     if t == 'ipath':
         kbs = None if s[2] is None else [(k, build(v)) for k, v in s[2]]
         return CIMInstanceName(s[1], keybindings=kbs, namespace=s[3], host=s[4])
@@ -239,7 +243,7 @@ def valid_value(s):
         return False
     if s[0] == 'a':
         return True
-    return s[0] in ('n', 's', 'b', 'i', 'r', 'dt', 'ipath', 'cpath', 'inst', 'class')
+    return s[0] in ('n', 's', 'b', 'i', 'r', 'dt', 'ipath', 'cpath', 'inst', 'class', 't', 'j', 'param')
 
 
 def valid(s):
@@ -265,6 +269,10 @@ def valid(s):
             return len(s) == 2 and isinstance(s[1], str) and len(s[1]) == 25
         if t == 'a':
             return len(s) == 2 and isinstance(s[1], list) and all(valid_value(x) for x in s[1])
+        if t == 't':
+            return len(s) == 2 and isinstance(s[1], list) and all(valid(x) for x in s[1])
+        if t == 'j':
+            return len(s) == 2
         if t == 'ipath':
             if len(s) != 5 or not _name_ok(s[1]) or s[3] == '' or s[4] == '':
                 return False
